@@ -338,7 +338,7 @@ def drive(a, prop, tier, cdir, plain, outdir, need_race, log, t0):
             extra.append(spawn_worker(plain, prop, a.seed, 0, n, 120, tier, outdir, 950 + j, False, digests=True, gomaxprocs=gmp, scenario=a.scenario))
         for s in wait_workers(extra):
             for k, v in s.get("digests", {}).items():
-                if k in ref["digests"]:
+                if k in ref["digests"] and v != "unstable" and ref["digests"][k] != "unstable":
                     det["checked"] += 1
                     if ref["digests"][k] != v:
                         det["mismatch"] += 1
